@@ -131,12 +131,40 @@ pub fn raw_name_to_ts_field(value: String) -> String {
         .next()
         .map_or(true, |first| !first.is_numeric());
 
-    let valid = valid_chars && does_not_start_with_digit;
+    let valid = valid_chars && does_not_start_with_digit && !value.is_empty();
 
     if valid {
         value
     } else {
-        format!(r#""{value}""#)
+        format!(r#""{}""#, escape_ts_string(&value))
+    }
+}
+
+/// Escapes a string so that it can stand between double quotes in TypeScript.
+pub fn escape_ts_string(value: &str) -> String {
+    let mut escaped = String::with_capacity(value.len());
+    for c in value.chars() {
+        match c {
+            '"' => escaped.push_str("\\\""),
+            '\\' => escaped.push_str("\\\\"),
+            '\n' => escaped.push_str("\\n"),
+            '\r' => escaped.push_str("\\r"),
+            '\u{2028}' => escaped.push_str("\\u2028"),
+            '\u{2029}' => escaped.push_str("\\u2029"),
+            c => escaped.push(c),
+        }
+    }
+    escaped
+}
+
+/// Like [`escape_ts_string`], for a name given as an expression: string literals are escaped,
+/// any other expression is left as it is.
+pub fn escape_ts_string_expr(expr: &Expr) -> Expr {
+    match expr {
+        Expr::Lit(ExprLit {
+            lit: Lit::Str(str), ..
+        }) => make_string_literal(&escape_ts_string(&str.value()), str.span()),
+        other => other.clone(),
     }
 }
 
